@@ -346,10 +346,17 @@ fn onto_case(rng: &mut Rng, prop: &str, tier: &str, idx: usize) -> Case {
             c.op("rel 0".to_string());
             c.op("oracle closure 0".to_string());
             c.nontrivial = multi > 0;
+            if rng.chance(1, 4) {
+                // construction path `sub_ontology`: a root and leaves below it (sometimes one outside)
+                sub_path(rng, &f, &mut c, "closure");
+            }
         }
         "C02" => {
             c.op("oracle inherit 0".to_string());
             c.nontrivial = inh > 0;
+            if rng.chance(1, 6) {
+                sub_path(rng, &f, &mut c, "inherit");
+            }
         }
         "C03" => {
             c.op("oracle ic 0".to_string());
@@ -358,6 +365,40 @@ fn onto_case(rng: &mut Rng, prop: &str, tier: &str, idx: usize) -> Case {
         _ => {}
     }
     c
+}
+
+/// `sub 0 1 <root> <leaves>` for a random root and leaves among its descendants, then the dump and
+/// the given oracle on the sub-ontology (slot 1)
+fn sub_path(rng: &mut Rng, f: &Facts, c: &mut Case, oracle: &str) {
+    let ids: Vec<u32> = f.terms.iter().map(|t| t.0).collect();
+    let root = *rng.pick(&ids);
+    // descendants of root by the edge facts
+    let mut desc: Vec<u32> = vec![root];
+    let mut i = 0;
+    while i < desc.len() {
+        let x = desc[i];
+        for (p, ch) in &f.edges {
+            if *p == x && !desc.contains(ch) {
+                desc.push(*ch);
+            }
+        }
+        i += 1;
+    }
+    let nl = rng.range(1, 4) as usize;
+    let mut leaves: Vec<u32> = (0..nl).map(|_| *rng.pick(&desc)).collect();
+    if rng.chance(1, 10) {
+        leaves.push(*rng.pick(&ids)); // possibly outside root's subtree: the call must be refused
+    }
+    c.op(format!("sub 0 1 {} {}", root, ids_csv(&leaves)));
+    // which of several shortest chains is kept is tie dependent (C14 allows any): the sub-ontology
+    // is therefore judged by the independent oracle only, its dump is not compared with the model
+    c.op(format!("oracle {oracle} 1"));
+    c.op("oracle closed 1".to_string());
+    c.stat("sub_ontology_path", 1);
+}
+
+fn ids_csv(v: &[u32]) -> String {
+    ids(v.iter().copied())
 }
 
 fn c15(rng: &mut Rng, _idx: usize) -> Case {
